@@ -59,11 +59,11 @@ Section S.
   Proof.
     intros k interop v p hc H. unfold CK in H.
     destruct k; cbn [clean_kind] in H.
-    Time all: unfold clean_string, clean_float, clean_bool, clean_hashes, clean_reference in H.
-    Time all: walk H.
-    Time all: try (inv H; reflexivity).
-    Time all: try (inv H; cbn [pval_has_custom negb andb orb fst snd] in *; auto; fail).
-    Time all: match goal with
+    all: unfold clean_string, clean_float, clean_bool, clean_hashes, clean_reference in H.
+    all: walk H.
+    all: try discriminate.
+    all: try (match type of H with Ok _ = Ok _ => inv H; cbn [pval_has_custom negb andb orb fst snd] in *; auto; fail end).
+    all: match goal with
       | H0 : hashes_loop _ _ false _ _ _ = Ok _ |- _ => eapply hashes_loop_strict; [exact H0 | reflexivity]
       | H0 : obs_loop _ _ _ false _ _ _ = Ok _ |- _ => eapply obs_loop_strict; [exact H0 | reflexivity]
       | H0 : ext_loop _ _ _ _ false _ _ _ _ = Ok _ |- _ => eapply ext_loop_strict; [exact H0 | reflexivity]
